@@ -5,7 +5,7 @@
 
    history: operations separated by ';', integer fields separated by ','.
      target  = var,plen,(0,len,units.. | 1,idx)*
-     scalar  = 0 null | 1 true | 2 false | 3,n | 4,z | 5,q | 6,len,units..  ; 7 = none
+     scalar  = 0 null | 1 true | 2 false | 3,n | 4,z | 5,q (the real q/256) | 6,len,units..  ; 7 = none
      ops     = 0 | 1,t,p,v | 2,t,k,p,v | 3,t,i,p,v | 4,t,p,v | 5,t1,t2,mv | 6,t1,t2,mv | 7,t1,k,t2
              | 8,t,k,v | 9,t,i | 10,t | 11,t | 12,t1,t2,ctor | 13,t1,t2,ctor | 14,t,id | 15,t,id
              | 16,t,n,p | 17,t | 18,t1,t2,k | 19,t,k | 20,t,kind,v | 21,t1,t2,v | 22,t1,t2,v
